@@ -10,7 +10,7 @@ NOT_DECIDED_CUBIC_INVERSE = ("cubic_spline(inverse=True): the trigonometric thre
 def Ks(tier, fam):
     if tier == "quick":
         return (1, 2, 3)
-    return (1, 2, 3, 4, 5, 8) if fam in ("rq", "linear", "quadratic") else (1, 2, 3, 4, 5)
+    return (1, 2, 3, 4, 5, 8)
 
 
 def spline_harnesses(props, tier, wrappers=True, directions=(False, True)):
@@ -18,7 +18,7 @@ def spline_harnesses(props, tier, wrappers=True, directions=(False, True)):
     for name, fam in FAMILIES.items():
         for K in Ks(tier, name):
             for inv in directions:
-                if name == "cubic" and inv and K > (2 if tier == "quick" else 3):
+                if name == "cubic" and inv and K > (2 if tier == "quick" else 5):
                     continue          # cubic inverse: branch analysis with Cardano / fallback / assumed trig branch; bins bounded for run time
                 if name == "quadratic" and K == 1 and False:
                     continue
